@@ -688,7 +688,7 @@ func TestC26(t *testing.T) {
 	nClient := r.N(2, 20)
 	for _, mode := range []string{"R", "S"} {
 		for _, b := range []string{"etcd", "redis"} {
-			for _, ops := range clientCorpus() {
+			for _, ops := range clientCorpus(mode) {
 				specs = append(specs, spec{b: b, mode: mode, n: 2, fixed: ops})
 			}
 		}
@@ -905,5 +905,5 @@ func TestC26(t *testing.T) {
 		tags := map[string]any{"backend": o.b.name(), "client": client, "lapse_while_registered": lwr}
 		r.Add(term, desc, tags, lwr || exists)
 	}
-	r.Finish("per backend (real StartEphemeral on embedded etcd with heartbeat 300 ms / miniredis with heartbeats 300 ms / 1 s / 1.2 s by schedule index; an etcd schedule during which an independent probe saw a stall >= 400 ms is repeated up to three times, then dropped): a corpus of 4 schedules (register-tick-stop; a rejected second registrant that registers after the first stopped; the redis witness lapse-takeover-stop; lapse with nobody taking over), then adaptive random schedules of 8-15 macro operations over 2 or 3 registrants (MReg 35%, MTickAll 30%, MLapse 15%, MStop 20% among the operations legal in the harness view), closed by a Stop of every still-active registrant; non-trivial = a lapse while somebody is registered, or a registration rejected with ErrKeyExists. Watcher mode (client=selfmon): the same operations drive selfmon.withActiveLock through the verif hook (MReg = start a watcher, pending when its first attempt is rejected, at most one pending; MTickAll also waits for the pending watcher's next retry; MStop = cancel the watcher's context), etcd heartbeat 300 ms on the fixed key one schedule at a time, redis heartbeat 1 s: a corpus of 3 schedules per backend (start-tick-stop; a waiting watcher that takes over after a lapse; a watcher cancelled while waiting), then adaptive random schedules of 6-10 operations. Client modes R (client=selfmon.run: the restart loop selfmon.run, pause ConnectionTimeout 2.5 s) and S (client=RegisterService: one Calcium per registrant, same bind address hence one service key): every registration attempt and every expiry channel is observed through a delegating store proxy; the closed flag means 'does not believe it holds'; generator rules: at most one pending registrant, on etcd at most one lapsed registrant not yet notified, a free key with a pending registrant forces MTickAll, S on etcd: MLapse of a believer forces MTickAll, key-freeing operations aligned to the pending registrant's retries; per mode and backend a corpus of 3 schedules (start-tick-stop; a waiting registrant and a lapse; a lapse with nobody waiting), then adaptive random schedules of 6-9 operations; a run in which an expected registration attempt does not show up within its limit is repeated, then dropped and counted, never emitted")
+	r.Finish("per backend (real StartEphemeral on embedded etcd with heartbeat 300 ms / miniredis with heartbeats 300 ms / 1 s / 1.2 s by schedule index; an etcd schedule during which an independent probe saw a stall >= 400 ms is repeated up to three times, then dropped): a corpus of 4 schedules (register-tick-stop; a rejected second registrant that registers after the first stopped; the redis witness lapse-takeover-stop; lapse with nobody taking over), then adaptive random schedules of 8-15 macro operations over 2 or 3 registrants (MReg 35%, MTickAll 30%, MLapse 15%, MStop 20% among the operations legal in the harness view), closed by a Stop of every still-active registrant; non-trivial = a lapse while somebody is registered, or a registration rejected with ErrKeyExists. Watcher mode (client=selfmon): the same operations drive selfmon.withActiveLock through the verif hook (MReg = start a watcher, pending when its first attempt is rejected, at most one pending; MTickAll also waits for the pending watcher's next retry; MStop = cancel the watcher's context), etcd heartbeat 300 ms on the fixed key one schedule at a time, redis heartbeat 1 s: a corpus of 3 schedules per backend (start-tick-stop; a waiting watcher that takes over after a lapse; a watcher cancelled while waiting), then adaptive random schedules of 6-10 operations. Client modes R (client=selfmon.run: the restart loop selfmon.run, pause ConnectionTimeout 2.5 s) and S (client=RegisterService: one Calcium per registrant, same bind address hence one service key): every registration attempt and every expiry channel is observed through a delegating store proxy; the closed flag means 'does not believe it holds' (R: no monitor of the watcher is running, observed through a per-watcher NodeStatusStream wrapper; S: no live registration of the Calcium); generator rules: at most one pending registrant, on etcd at most one lapsed registrant not yet notified, a free key with a pending registrant forces MTickAll, S on etcd: MLapse of a believer forces MTickAll, key-freeing operations aligned to the pending registrant's retries; per mode and backend a corpus of 3 schedules (start-tick-stop; a waiting registrant and a lapse; a lapse with nobody waiting; R also: another watcher registers after a lapse, then the old one is notified), then adaptive random schedules of 6-9 operations; a run in which an expected registration attempt does not show up within its limit is repeated, then dropped and counted, never emitted")
 }
